@@ -2,7 +2,7 @@
    Only statements; proofs live in Proof/P_IntFmtDigits.v and Proof/P_IntFmt.v.
    Characters are code points: 'd'=100 'o'=111 'x'=120 'X'=88, ' '=32, '0'=48, '-'=45. *)
 From Coq Require Import ZArith List Bool.
-From CyVerif Require Import Lib.CInt Model.M_IntFmt Proof.P_IntFmtDigits Proof.P_IntFmt.
+From CyVerif Require Import Lib.CInt Model.M_IntFmt Proof.P_IntFmtDigits Proof.P_IntFmt Gen.Gen_IntFmt.
 Import ListNotations.
 Open Scope Z_scope.
 
@@ -79,6 +79,13 @@ Theorem C18_char_range_check_fixed : forall w s v width pad,
   uchar_to_unicode true w s v width pad = py_format_char v width pad.
 Proof. exact char_range_fixed. Qed.
 Print Assumptions C18_char_range_check_fixed.
+
+(* the three tables as written in Cython/Utility/TypeConversion.c (Gen/Gen_IntFmt.v is regenerated
+   from the source text on every run) are the tables of the model *)
+Theorem C18_tables_match_source :
+  c_DIGIT_PAIRS_10 = DIGIT_PAIRS_10 /\ c_DIGIT_PAIRS_8 = DIGIT_PAIRS_8 /\ c_DIGITS_HEX = DIGITS_HEX.
+Proof. exact c_tables_eq. Qed.
+Print Assumptions C18_tables_match_source.
 
 (* non-vacuity: INT64_MIN in octal (22 digits + sign in the 26-byte buffer), zero padding of a
    negative int, upper-case hex of the largest uint64 *)
